@@ -8,6 +8,7 @@ import StepModel.StrcmpOrder
 import StepModel.GenSelectOrder
 import StepModel.GenPyModule
 import StepModel.GenPyModuleLemmas
+import StepModel.GenPyModuleEntityLemmas
 import StepModel.Generated.GenInitGen
 /-!
 # C12 — generators and the pretty printer are deterministic functions of their input
@@ -251,6 +252,61 @@ theorem C12_python_module_order_names_only (α β : Ambient) (base base' : Nat) 
 theorem C12_python_types_defined_exactly_once (types : List PyModule.T) (hnd : (types.map (·.name)).Nodup) :
     (PyModule.typesBeforeEntities types ++ PyModule.typesAfterEntities types).Perm (types.map (·.name)) :=
   PyModule.types_order_perm types hnd
+
+/-- … the same for the entity classes: when `SCOPEget_entities_superclass_order` returns — whatever the dictionary order of the
+    roots, the supertype graph (circles included: "marked" covers the recursion stack) and the recursion bound — the classes it
+    lists are a permutation of the entities of the scope (distinct names): every entity class is defined exactly once. -/
+theorem C12_python_entities_defined_exactly_once (es : List GenPy.Entity) (hnd : (es.map (·.name)).Nodup) (fuel : Nat)
+    (out : List String) (h : GenPy.EntityOrder.order es fuel (es.map (·.name)) = some out) : out.Perm (es.map (·.name)) :=
+  GenPy.EntityOrder.order_perm es hnd fuel out h
+
+/-- **A Python module defines every name of its schema exactly once**: the definition sequence `PyModule.order` produces — defined
+    types before and after the entity classes, entity classes, functions, rules — is a permutation of the schema's defined types,
+    entities, functions and rules (the roots of the entity walk = the entities of the scope; names of types and of entities
+    distinct).  With `C12_python_module_order_names_only`: the same names, each once, in an order that depends on names and
+    declarations only. -/
+theorem C12_python_module_defines_each_name_once (types : List PyModule.T) (es : List GenPy.Entity) (funcs rules : List String)
+    (ht : (types.map (·.name)).Nodup) (he : (es.map (·.name)).Nodup) (fuel : Nat) (l : List String)
+    (h : PyModule.order types es (es.map (·.name)) fuel funcs rules = some l) :
+    l.Perm (types.map (·.name) ++ es.map (·.name) ++ funcs ++ rules) := by
+  unfold PyModule.order at h
+  cases ho : GenPy.EntityOrder.order es fuel (es.map (·.name)) with
+  | none => rw [ho] at h; cases h
+  | some ents =>
+    rw [ho] at h
+    have hl := Option.some.inj h
+    subst hl
+    have pe := GenPy.EntityOrder.order_perm es he fuel ents ho
+    have pt := PyModule.types_order_perm types ht
+    -- move the types written after the entities next to those written before
+    have h1 : (PyModule.typesBeforeEntities types ++ ents ++ funcs ++ rules ++ PyModule.typesAfterEntities types).Perm
+        ((PyModule.typesBeforeEntities types ++ PyModule.typesAfterEntities types) ++ (ents ++ funcs ++ rules)) := by
+      have a : PyModule.typesBeforeEntities types ++ ents ++ funcs ++ rules ++ PyModule.typesAfterEntities types
+          = PyModule.typesBeforeEntities types ++ ((ents ++ funcs ++ rules) ++ PyModule.typesAfterEntities types) := by
+        simp only [List.append_assoc]
+      have b : (PyModule.typesBeforeEntities types ++ PyModule.typesAfterEntities types) ++ (ents ++ funcs ++ rules)
+          = PyModule.typesBeforeEntities types ++ (PyModule.typesAfterEntities types ++ (ents ++ funcs ++ rules)) := by
+        simp only [List.append_assoc]
+      rw [a, b]
+      exact List.Perm.append_left _ List.perm_append_comm
+    refine h1.trans ?_
+    have h2 : (ents ++ funcs ++ rules).Perm (es.map (·.name) ++ funcs ++ rules) :=
+      List.Perm.append_right _ (List.Perm.append_right _ pe)
+    have h3 := List.Perm.append pt h2
+    have c : types.map (·.name) ++ (es.map (·.name) ++ funcs ++ rules) = types.map (·.name) ++ es.map (·.name) ++ funcs ++ rules := by
+      simp only [List.append_assoc]
+    rw [← c]
+    exact h3
+
+/-- the hypothesis is satisfiable: a diamond (`d` under `b` and `c`, both under `a`) plus an entity with a supertype outside the
+    scope; the module order is returned and is the permutation the theorem speaks of -/
+example :
+    PyModule.order [{ name := "t", kind := .simple, head := none }]
+      [{ name := "d", supers := ["b", "c"], attrs := [] }, { name := "b", supers := ["a"], attrs := [] },
+       { name := "c", supers := ["a"], attrs := [] }, { name := "a", supers := [], attrs := [] },
+       { name := "x", supers := ["elsewhere"], attrs := [] }]
+      ["d", "b", "c", "a", "x"] 7 ["f"] ["r"] = some ["t", "a", "b", "c", "d", "x", "f", "r"] := by
+  decide
 
 /-! ## memory the generators allocate and read -/
 
